@@ -212,6 +212,7 @@ def check_exceptional_exit(ex: Exec, ct: Contract, fi: FuncInfo, exc):
     if match is None:
         ctx.oblige(f"exc-escape:{q}:{exc.cls}" + (f":{exc.note}" if exc.note else ""), z3.BoolVal(False), kind="exc", line=fi.lineno)
         return
+    ex.final_locals = ctx.locals
     ctx.locals = _with_entry_params(ex)
     ex.spec_mode = True
     try:
